@@ -9,6 +9,7 @@ import EduceModel.Spec.Deref
 import EduceModel.Spec.Into
 import EduceModel.Spec.Default
 import EduceModel.Gen.Union
+import EduceModel.DriverAttr
 /-
   Line-protocol driver: one JSON array per line in, one JSON array per line out.
   The executable definitions it runs are exactly the ones the theorems are about
@@ -414,6 +415,7 @@ def handle (st : St) (j : Json) : St × Option Json :=
         | some v => Json.num v
         | none => Json.str "refused"
       (st, some (Json.arr #["into", a[1]!, a[2]!, a[3]!, a[4]!, m, s]))
+  else if op == "expand" then (st, some (DA.handleExpand a))
   else if op == "uimg" then (st, none)
   else if op == "ueq" || op == "uhash" || op == "udbg" then
     match st.defs.get? (jnat a[1]!) with
